@@ -450,6 +450,8 @@ fn do_fixed_roundtrip(op: &Value) -> String {
     use netflow_parser::protocol::ProtocolTypes;
     use std::net::Ipv4Addr;
     let ver = nat(&op["v"]);
+    // "raw_pt": the (derived) protocol_type field is set from slot 14 instead of from protocol_number — a structure a caller CAN build
+    let raw_pt = op["raw_pt"].as_bool().unwrap_or(false);
     let bytes: Vec<u8> = if ver == 5 {
         if h.len() != 9 || recs.iter().any(|r| r.len() != 21) { return "{\"bad\":\"arity\"}".into(); }
         let s = v5::V5 {
@@ -459,7 +461,7 @@ fn do_fixed_roundtrip(op: &Value) -> String {
                 src_addr: Ipv4Addr::from(r[0] as u32), dst_addr: Ipv4Addr::from(r[1] as u32), next_hop: Ipv4Addr::from(r[2] as u32),
                 input: r[3] as u16, output: r[4] as u16, d_pkts: r[5] as u32, d_octets: r[6] as u32, first: r[7] as u32, last: r[8] as u32,
                 src_port: r[9] as u16, dst_port: r[10] as u16, pad1: r[11] as u8, tcp_flags: r[12] as u8, protocol_number: r[13] as u8,
-                protocol_type: ProtocolTypes::from(r[13] as u8), tos: r[15] as u8, src_as: r[16] as u16, dst_as: r[17] as u16,
+                protocol_type: ProtocolTypes::from(if raw_pt { r[14] as u8 } else { r[13] as u8 }), tos: r[15] as u8, src_as: r[16] as u16, dst_as: r[17] as u16,
                 src_mask: r[18] as u8, dst_mask: r[19] as u8, pad2: r[20] as u16 }).collect(),
         };
         s.to_be_bytes()
@@ -472,7 +474,7 @@ fn do_fixed_roundtrip(op: &Value) -> String {
                 src_addr: Ipv4Addr::from(r[0] as u32), dst_addr: Ipv4Addr::from(r[1] as u32), next_hop: Ipv4Addr::from(r[2] as u32),
                 input: r[3] as u16, output: r[4] as u16, d_pkts: r[5] as u32, d_octets: r[6] as u32, first: r[7] as u32, last: r[8] as u32,
                 src_port: r[9] as u16, dst_port: r[10] as u16, flags_fields_valid: r[11] as u8, tcp_flags: r[12] as u8, protocol_number: r[13] as u8,
-                protocol_type: ProtocolTypes::from(r[13] as u8), tos: r[15] as u8, src_as: r[16] as u16, dst_as: r[17] as u16,
+                protocol_type: ProtocolTypes::from(if raw_pt { r[14] as u8 } else { r[13] as u8 }), tos: r[15] as u8, src_as: r[16] as u16, dst_as: r[17] as u16,
                 src_mask: r[18] as u8, dst_mask: r[19] as u8, flags_fields_invalid: r[20] as u16, router_src: Ipv4Addr::from(r[21] as u32) }).collect(),
         };
         s.to_be_bytes()
